@@ -206,8 +206,6 @@ func rewriteConcurrency(name string, src []byte) ([]byte, error) {
 	tmp := 0
 	astutil.Apply(f, func(c *astutil.Cursor) bool {
 		switch n := c.Node().(type) {
-		case *ast.SelectStmt:
-			rerr = fmt.Errorf("%s: select statement cannot be translated", fset.Position(n.Pos()))
 		case *ast.RangeStmt:
 			if _, ok := n.X.(*ast.UnaryExpr); ok {
 				rerr = fmt.Errorf("%s: range over channel receive cannot be translated", fset.Position(n.Pos()))
@@ -228,7 +226,11 @@ func rewriteConcurrency(name string, src []byte) ([]byte, error) {
 		case *ast.UnaryExpr:
 			if n.Op == token.ARROW {
 				needSched = true
-				c.Replace(&ast.CallExpr{Fun: &ast.SelectorExpr{X: n.X, Sel: ast.NewIdent("Recv")}})
+				if isDoneCall(n.X) {
+					c.Replace(&ast.CallExpr{Fun: sel("vsched", "WaitDone"), Args: []ast.Expr{n.X}})
+				} else {
+					c.Replace(&ast.CallExpr{Fun: &ast.SelectorExpr{X: n.X, Sel: ast.NewIdent("Recv")}})
+				}
 			}
 		case *ast.CallExpr:
 			if id, ok := n.Fun.(*ast.Ident); ok && id.Name == "make" && len(n.Args) >= 1 {
@@ -248,6 +250,15 @@ func rewriteConcurrency(name string, src []byte) ([]byte, error) {
 				needSched = true
 				c.Replace(&ast.CallExpr{Fun: sel("vsched", "Close"), Args: n.Args})
 			}
+		case *ast.SelectStmt:
+			// post-order: the clauses' sends / receives have already been rewritten into calls
+			repl, err := translateSelect(fset, n, &tmp)
+			if err != nil {
+				rerr = err
+				return true
+			}
+			needSched = true
+			c.Replace(repl)
 		case *ast.GoStmt:
 			needSched = true
 			var stmts []ast.Stmt
@@ -361,6 +372,108 @@ func findMapRanges(repo string, pkgs []string, content map[string][]byte) (map[s
 		}
 	}
 	return out, nil
+}
+
+// isDoneCall: x.Done() - a real channel from another package (context), not a shim channel.
+func isDoneCall(e ast.Expr) bool {
+	c, ok := e.(*ast.CallExpr)
+	if !ok || len(c.Args) != 0 {
+		return false
+	}
+	s, ok := c.Fun.(*ast.SelectorExpr)
+	return ok && s.Sel.Name == "Done"
+}
+
+// commOp classifies an already rewritten communication: ch.Send(v), ch.Recv(), vsched.WaitDone(ch).
+func commOp(e ast.Expr) (op string, ch ast.Expr, val ast.Expr) {
+	c, ok := e.(*ast.CallExpr)
+	if !ok {
+		return "", nil, nil
+	}
+	if s, ok := c.Fun.(*ast.SelectorExpr); ok {
+		if x, ok := s.X.(*ast.Ident); ok && x.Name == "vsched" && s.Sel.Name == "WaitDone" && len(c.Args) == 1 {
+			return "done", c.Args[0], nil
+		}
+		switch {
+		case s.Sel.Name == "Send" && len(c.Args) == 1:
+			return "send", s.X, c.Args[0]
+		case s.Sel.Name == "Recv" && len(c.Args) == 0:
+			return "recv", s.X, nil
+		}
+	}
+	return "", nil, nil
+}
+
+// translateSelect turns a select statement over shim channels (and context done-channels) into
+//
+//	{ c0 := vsched.RecvCaseOf(ch); c1 := vsched.DoneCase(ctx.Done()); c2 := vsched.SendCaseOf(ch2, v)
+//	  switch vsched.Select(hasDefault, c0, c1, c2) { case 0: v := c0.V; ...; case 1: ...; default: ... } }
+func translateSelect(fset *token.FileSet, n *ast.SelectStmt, tmp *int) (ast.Stmt, error) {
+	var decls []ast.Stmt
+	var args []ast.Expr
+	var clauses []ast.Stmt
+	hasDefault := false
+	for _, cs := range n.Body.List {
+		cc := cs.(*ast.CommClause)
+		if cc.Comm == nil {
+			hasDefault = true
+			clauses = append(clauses, &ast.CaseClause{Body: cc.Body})
+			continue
+		}
+		id := ast.NewIdent("vselcase" + strconv.Itoa(*tmp))
+		*tmp++
+		idx := len(args)
+		var pre []ast.Stmt
+		mk := func(fn string, a ...ast.Expr) {
+			decls = append(decls, &ast.AssignStmt{Lhs: []ast.Expr{id}, Tok: token.DEFINE, Rhs: []ast.Expr{&ast.CallExpr{Fun: sel("vsched", fn), Args: a}}})
+		}
+		switch cm := cc.Comm.(type) {
+		case *ast.ExprStmt:
+			switch op, ch, val := commOp(cm.X); op {
+			case "send":
+				mk("SendCaseOf", ch, val)
+			case "recv":
+				mk("RecvCaseOf", ch)
+			case "done":
+				mk("DoneCase", ch)
+			default:
+				return nil, fmt.Errorf("%s: unsupported select clause", fset.Position(cc.Pos()))
+			}
+		case *ast.AssignStmt:
+			op, ch, _ := commOp(cm.Rhs[0])
+			if op != "recv" || len(cm.Rhs) != 1 {
+				return nil, fmt.Errorf("%s: unsupported select clause", fset.Position(cc.Pos()))
+			}
+			mk("RecvCaseOf", ch)
+			rhs := []ast.Expr{&ast.SelectorExpr{X: id, Sel: ast.NewIdent("V")}}
+			if len(cm.Lhs) == 2 {
+				rhs = append(rhs, &ast.SelectorExpr{X: id, Sel: ast.NewIdent("OK")})
+			}
+			pre = append(pre, &ast.AssignStmt{Lhs: cm.Lhs, Tok: cm.Tok, Rhs: rhs})
+			if cm.Tok == token.DEFINE {
+				for _, l := range cm.Lhs {
+					if lid, ok := l.(*ast.Ident); ok && lid.Name != "_" {
+						pre = append(pre, &ast.AssignStmt{Lhs: []ast.Expr{ast.NewIdent("_")}, Tok: token.ASSIGN, Rhs: []ast.Expr{ast.NewIdent(lid.Name)}})
+					}
+				}
+			}
+		default:
+			return nil, fmt.Errorf("%s: unsupported select clause", fset.Position(cc.Pos()))
+		}
+		args = append(args, id)
+		clauses = append(clauses, &ast.CaseClause{List: []ast.Expr{&ast.BasicLit{Kind: token.INT, Value: strconv.Itoa(idx)}}, Body: append(pre, cc.Body...)})
+	}
+	hd := "false"
+	if hasDefault {
+		hd = "true"
+	} else {
+		// keeps the statement terminating where the select was (a select without default whose
+		// clauses all return ends a function)
+		clauses = append(clauses, &ast.CaseClause{Body: []ast.Stmt{&ast.ExprStmt{X: &ast.CallExpr{Fun: ast.NewIdent("panic"), Args: []ast.Expr{&ast.BasicLit{Kind: token.STRING, Value: `"vsched: select returned no clause"`}}}}}})
+	}
+	call := &ast.CallExpr{Fun: sel("vsched", "Select"), Args: append([]ast.Expr{ast.NewIdent(hd)}, args...)}
+	sw := &ast.SwitchStmt{Tag: call, Body: &ast.BlockStmt{List: clauses}}
+	return &ast.BlockStmt{List: append(decls, sw)}, nil
 }
 
 // rewriteMapRange turns `for k, v := range <expr>` (expr textually one of exprs)
